@@ -1318,7 +1318,7 @@ Proof.
   - exact A.
   - destruct (is_idle c s); [|exact A]. destruct (id_lookup (s_ids s) i) as [ser|]; [|exact A].
     destruct (getjob (s_jobs s) ser) as [j|]; [|exact A].
-    destruct (j_done j && negb (done_pending ser (s_hub s))); [destruct (j_drop j && id_is (s_ids s) (j_id j) ser)|]; exact A.
+    destruct (j_done j); [destruct (j_drop j && id_is (s_ids s) (j_id j) ser)|]; exact A.
   - exact A.
   - destruct (id_lookup (s_ids s) i) as [ser|]; [|exact A]. cbn [fst]. intros x jx. sf.
     rewrite getjob_setjob by (intros; cbn; assumption). destruct (x =? ser) eqn:E.
@@ -1486,7 +1486,7 @@ Proof.
   - cbn [fst]. eapply hub_same; [| |exact K]; reflexivity.
   - destruct (is_idle c s); [|exact K]. destruct (id_lookup (s_ids s) i) as [ser|]; [|exact K].
     destruct (getjob (s_jobs s) ser) as [j|]; [|exact K].
-    destruct (j_done j && negb (done_pending ser (s_hub s))); [destruct (j_drop j && id_is (s_ids s) (j_id j) ser)|]; cbn [fst];
+    destruct (j_done j); [destruct (j_drop j && id_is (s_ids s) (j_id j) ser)|]; cbn [fst];
       try exact K; (eapply hub_same; [| |exact K]; reflexivity).
   - exact K.
   - destruct (id_lookup (s_ids s) i) as [ser|]; [|exact K]. cbn [fst].
@@ -1533,12 +1533,11 @@ Proof.
   - destruct (is_idle c s) eqn:EI; [|exact I]. apply is_idle_st in EI.
     destruct (id_lookup (s_ids s) i) as [ser|]; [|exact I].
     destruct (getjob (s_jobs s) ser) as [j|] eqn:Ej; [|exact I].
-    destruct (j_done j && negb (done_pending ser (s_hub s))) eqn:ED.
+    destruct (j_done j) eqn:ED.
     + (* released at once; a dropped job's id is forgotten only while it still names this finished job *)
       destruct (j_drop j && id_is (s_ids s) (j_id j) ser) eqn:EC; [|exact I]. cbn [fst].
       apply andb_true_iff in EC. destruct EC as [_ EI2]. apply id_is_spec in EI2.
-      apply andb_true_iff in ED. destruct ED as [Dj _].
-      eapply inv_del_done; eauto. unfold is_done. rewrite Ej. exact Dj.
+      eapply inv_del_done; eauto. unfold is_done. rewrite Ej. exact ED.
     + cbn [fst]. apply conn_update_inv; auto; [right; eexists; reflexivity|apply incl_refl].
   - exact I.
   - destruct (id_lookup (s_ids s) i) as [ser|]; [|exact I]. cbn [fst].
